@@ -1,6 +1,7 @@
-(* C25 -- theorems about the gateware PHY models (coq/Model/GwPhy.v). *)
-From Coq Require Import NArith List Bool Lia.
-Import ListNotations.
-From LunaLib Require Import Netlist Machine.
-From LunaModel Require Import GwPhyCodec GwPhyCodec_proofs GwPhy.
-Open Scope N_scope.
+(* C25 -- theorems about the gateware PHY models (coq/Model/GwPhy.v): this file only collects the proof files.
+     GwPhyCodec_proofs   the line code: unstuff/stuff, NRZI, unframe (frame bytes) = bytes, violations
+     GwPhyTxU_proofs     usb-domain half of the transmitter in closed loop with a UTMI driver
+     GwPhyTxIo_proofs    usb_io half + the two-clock transmit machine: tx_session_line
+     GwPhyRxB_proofs     symbol-level receive machine: rxb_frame, rxb_violation
+     GwPhyRxC_proofs     cycle-level receive front end on an ideally sampled line = symbol-level machine *)
+From LunaModel Require Export GwPhyCodec GwPhyCodec_proofs GwPhy GwPhyTxU_proofs GwPhyTxIo_proofs GwPhyRxB_proofs GwPhyRxC_proofs.
